@@ -328,7 +328,7 @@ def shapes(tier, warnings=('all', 'none')):
         add('expression of %d lines' % n, 'derived attribute initializer',
             wrap("ENTITY e;\n  a : INTEGER;\nDERIVE\n  d : INTEGER := %s;\nEND_ENTITY;\n" % '\n+ '.join(['a'] * min(n, 20000))), label='expression of many lines')
     # inheritance lattices: each level is a diamond over the previous one (the complex-entity expansion walks every path)
-    for d in (4, 10, 18, 26):
+    for d in (4, 10, 18, 26, 40):
         t = 'ENTITY t0;\n  a : INTEGER;\nEND_ENTITY;\n'
         for i in range(d):
             t += ('ENTITY l%d SUBTYPE OF (t%d);\nEND_ENTITY;\nENTITY r%d SUBTYPE OF (t%d);\nEND_ENTITY;\nENTITY t%d SUBTYPE OF (l%d, r%d);\nEND_ENTITY;\n'
@@ -359,6 +359,33 @@ def shapes(tier, warnings=('all', 'none')):
                 for order, text in (('user first', sa + sb), ('declarer first', sb + sa)):
                     add('%s renamed %d times in another schema of the file' % (kind, depth), '%s, %s' % (how.split(' b')[0] + (' (item)' if '%s' in how else ' (whole schema)'), order), text,
                         label='item of another schema of the same file used as attribute type')
+    # several files: a schema named in USE / REFERENCE FROM that is not in the input file is looked for in <schema>.exp
+    def multi(main, mtext, **files):
+        return '@@MAIN %s@@\n%s' % (main, mtext) + ''.join('@@FILE %s@@\n%s' % (n.replace('_exp', '.exp'), t) for n, t in sorted(files.items()))
+    PART = 'SCHEMA parts;\nENTITY part;\n  name : STRING;\nEND_ENTITY;\nTYPE plabel = STRING;\nEND_TYPE;\nEND_SCHEMA;\n'
+    DESIGN = 'SCHEMA design;\n%s\nENTITY assembly;\n  components : LIST [1:?] OF part;\nEND_ENTITY;\nEND_SCHEMA;\n'
+    for clause in ('USE FROM parts;', 'USE FROM parts (part);', 'REFERENCE FROM parts;', 'REFERENCE FROM parts (part, plabel AS lbl);'):
+        add('schema in another file', 'valid, %s' % clause.split(' parts')[0] + (' (items)' if '(' in clause else ' (whole schema)'), multi('design.exp', DESIGN % clause, parts_exp=PART))
+    add('schema in another file', 'the other file declares the main file\'s schema again', multi('design.exp', DESIGN % 'USE FROM parts;', parts_exp=PART + 'SCHEMA design;\nENTITY leftover;\nEND_ENTITY;\nEND_SCHEMA;\n'))
+    add('schema in another file', 'the other file declares one of its own names twice', multi('design.exp', DESIGN % 'USE FROM parts;', parts_exp=PART.replace('TYPE plabel', 'ENTITY part;\nEND_ENTITY;\nTYPE plabel')))
+    add('schema in another file', 'the other file redeclares a name of the main file in its own schema', multi('design.exp', DESIGN % 'USE FROM parts;', parts_exp=PART.replace('TYPE plabel', 'ENTITY assembly;\nEND_ENTITY;\nTYPE plabel')))
+    add('schema in another file', 'the other file does not contain the schema', multi('design.exp', DESIGN % 'USE FROM parts;', parts_exp='SCHEMA something_else;\nENTITY part;\nEND_ENTITY;\nEND_SCHEMA;\n'))
+    add('schema in another file', 'the other file has a syntax error', multi('design.exp', DESIGN % 'USE FROM parts;', parts_exp=PART.replace('name : STRING;', 'name : ;')))
+    add('schema in another file', 'the other file has an undefined type', multi('design.exp', DESIGN % 'USE FROM parts;', parts_exp=PART.replace('name : STRING;', 'name : nosuch;')))
+    add('schema in another file', 'the other file is empty', multi('design.exp', DESIGN % 'USE FROM parts;', parts_exp=''))
+    add('schema in another file', 'chain of three files', multi('design.exp', DESIGN % 'USE FROM parts;', parts_exp=PART.replace('SCHEMA parts;', 'SCHEMA parts;\nUSE FROM base (atom);'),
+                                                                 base_exp='SCHEMA base;\nENTITY atom;\n  z : INTEGER;\nEND_ENTITY;\nEND_SCHEMA;\n'))
+    add('schema in another file', 'two files using each other', multi('design.exp', DESIGN % 'USE FROM parts;', parts_exp=PART.replace('SCHEMA parts;', 'SCHEMA parts;\nREFERENCE FROM design (assembly);')))
+    add('schema in another file', 'the file of a schema that uses itself', multi('foo.exp', 'SCHEMA foo;\nUSE FROM foo;\nENTITY e;\n  a : INTEGER;\nEND_ENTITY;\nEND_SCHEMA;\n'))
+    add('schema in another file', 'the input file named after a schema it asks for but does not contain', multi('foo.exp', 'SCHEMA bar;\nUSE FROM foo;\nENTITY e;\n  a : INTEGER;\nEND_ENTITY;\nEND_SCHEMA;\n'))
+    # further fixed-size buffers reported against the unchanged tree
+    for n in (100, 9000, 20000):
+        add('string literal of %d chars' % n, 'CASE label', wrap(fn("  CASE s OF\n    '%s' : i := 1;\n    OTHERWISE : i := 2;\n  END_CASE;" % X(n), locs="  s : STRING := 'x';\n") + ent()),
+            label=size_label('string literal', n, (9990,)))
+    for n in (5, 60, 300):
+        add('aggregate type nested %d deep with long names' % n, 'attribute type',
+            wrap('TYPE %s = INTEGER;\nEND_TYPE;\nENTITY e;\n  a : %s %s;\nEND_ENTITY;\n' % (X(200), ' '.join(['LIST [1:3] OF'] * n), X(200))),
+            label='deeply nested aggregate attribute type' if n >= 60 else 'nested aggregate attribute type')
     add('exppp -o --', 'two schemas in one file', 'SCHEMA a;\nENTITY ea;\n  x : INTEGER;\nEND_ENTITY;\nEND_SCHEMA;\nSCHEMA b;\nENTITY eb;\n  y : INTEGER;\nEND_ENTITY;\nEND_SCHEMA;\n',
         ('exppp',), ('-o', '--'))
     add('USE FROM unknown schema', 'interface', wrap('USE FROM nowhere (x);\n' + ent()))
